@@ -5,6 +5,10 @@
 (*                 instantiate_classes run is evaluated as a fold (AlgInstantiate) and compared with Ref      *)
 (*   machine mode  the same run as a state machine (one action per step of _core.py:1231-1250), invariants on *)
 (*                 every intermediate state, and agreement of the final state with the fold                   *)
+(*   history mode  ONE parser used twice: a first batch of links, instantiate_classes, the remaining links,   *)
+(*                 instantiate_classes again -- every acyclic link sequence over three components, every      *)
+(*                 split point (none / all of the links before the first call included); the property must    *)
+(*                 hold after EACH call: the order is a function of the links present at the call             *)
 EXTENDS Links, Json
 CONSTANTS MaxFlat,      \* flat templates with 1..MaxFlat components
           FullPermsUpTo,\* flat templates with at most this many components: every declaration order and kind vector
@@ -106,14 +110,15 @@ MkShape(t, p, es, style) == [decl |-> Permuted(t, p).decl, objs |-> t.objs, plai
 
 \* ------------------------------------------------------------------ case mode
 VARIABLES phase, tpl, shape,
-          pc, ki, results, order, comps, mach          \* machine mode only
-mvars == <<phase, tpl, shape, pc, ki, results, order, comps, mach>>
+          pc, ki, results, order, comps, mach,         \* machine mode only
+          hist                                         \* history mode only: the run of the first instantiate_classes call
+mvars == <<phase, tpl, shape, pc, ki, results, order, comps, mach, hist>>
 NoShape == [decl |-> << >>, objs |-> {}, plains |-> {}, links |-> << >>]
-Idle == pc = "-" /\ ki = 0 /\ results = << >> /\ order = << >> /\ comps = << >> /\ mach = MachineInit
+Idle == pc = "-" /\ ki = 0 /\ results = << >> /\ order = << >> /\ comps = << >> /\ mach = MachineInit /\ hist = MachineInit
 InitCase == phase = "seed" /\ tpl \in Templates /\ shape = NoShape /\ Idle
 \* (the run of the algorithm is computed once, when the case state is created: results / comps / mach hold
 \* AlgAddLinks, the plan and the final machine state of the shape)
-NextCase == /\ phase = "seed" /\ phase' = "case" /\ UNCHANGED <<tpl, pc, ki, order>>
+NextCase == /\ phase = "seed" /\ phase' = "case" /\ UNCHANGED <<tpl, pc, ki, order, hist>>
             /\ \E es0 \in EdgeSeqs(tpl) : \E es \in OrdersOf(tpl, es0) : \E style \in Styles(tpl, es) : \E p \in DeclPerms(tpl, es) :
                  \* the declaration order cannot matter for a rejected link set: one order is enough there
                  /\ (Cyclic(EdgeSet(es)) => p = IdPerm(Len(tpl.decl)))
@@ -199,6 +204,36 @@ EmitCase == (Case /\ Emit) =>
 
 ASSUME PrintT(<<"SEEDS", Cardinality(Templates)>>)
 
+\* ------------------------------------------------------------------ history mode
+\* ki = the split point: links 1..ki are added before the first instantiate_classes call, the rest before the second;
+\* hist / mach = the two runs.  The algorithm keeps nothing between calls (instantiation_order is recomputed from
+\* the parser's links at :1227 every time), so each run is AlgInstantiate of the links present at that call.
+HistTemplates == {Flat(3, kv) : kv \in (IF DeepFull THEN FewKinds(3) ELSE {[i \in 1..3 |-> G], [i \in 1..3 |-> IF i % 2 = 1 THEN G ELSE S]})}
+HistSeqs(t)   == {es \in UNION {[1..n -> CandEdges(t)] : n \in 0..3} : NoDup(es) /\ ~Cyclic(EdgeSet(es))}
+HistStyles    == IF DeepFull THEN {0, 3} ELSE {1}
+Before(sh, n) == [sh EXCEPT !.links = SubLinks(sh.links, n)]
+InitHist == phase = "seed" /\ tpl \in HistTemplates /\ shape = NoShape /\ Idle
+NextHist == /\ phase = "seed" /\ phase' = "hist" /\ UNCHANGED <<tpl, pc, order>>
+            /\ \E es \in HistSeqs(tpl) : \E style \in HistStyles : \E p \in Perms(3) : \E n \in 0..Len(es) :
+                 shape' = MkShape(tpl, p, es, style) /\ ki' = n
+            /\ results' = AlgAddLinks(shape', 1)
+            /\ comps' = PlannedComponents(shape', InstantiationOrder(shape', shape'.links).order)
+            /\ hist' = AlgInstantiate(Before(shape', ki'))
+            /\ mach' = AlgInstantiate(shape')
+Hist == phase = "hist"
+HistoryRefinesRef == Hist =>
+  /\ AllAccepted(shape, results)
+  /\ ~hist.failed /\ RefInstOK(Before(shape, ki), hist.log) /\ FnCalledOnce(hist.log, Before(shape, ki).links)
+  /\ ~mach.failed /\ RefInstOK(shape, mach.log) /\ FnCalledOnce(mach.log, shape.links)
+\* (`reorders` marks the histories that add, after the first call, a link whose source was built AFTER its target in
+\* the first run: the second call has to plan differently; counted by the harness for non-vacuity)
+EmitHist == (Hist /\ Emit) =>
+  PrintT(ToJson([hist |-> TRUE, shape |-> ShapeJson(shape), split |-> ki, plan |-> comps,
+                 log1 |-> LogJson(hist.log), log2 |-> LogJson(mach.log),
+                 reorders |-> (\E i \in (ki + 1)..Len(shape.links) : \E j \in DOMAIN shape.links[i].srcs :
+                                  FirstNew(hist.log, shape.links[i].tobj) < FirstNew(hist.log, shape.links[i].srcs[j].obj))]))
+ASSUME PrintT(<<"HSEEDS", Cardinality(HistTemplates)>>)
+
 \* ------------------------------------------------------------------ machine mode
 \* pc: "add" (link_arguments calls) -> "plan" -> "apply"/"build" per component -> "rest" -> "done" | "rejected" | "failed"
 InitMachine == /\ phase = "case" /\ tpl \in Templates
@@ -207,7 +242,7 @@ InitMachine == /\ phase = "case" /\ tpl \in Templates
                     /\ Thinned(tpl, es0)
                     /\ PlainOnce(tpl, es0, style)
                     /\ shape = MkShape(tpl, p, es0, style)
-               /\ pc = "add" /\ ki = 1 /\ results = << >> /\ order = << >> /\ comps = << >> /\ mach = MachineInit
+               /\ pc = "add" /\ ki = 1 /\ results = << >> /\ order = << >> /\ comps = << >> /\ mach = MachineInit /\ hist = MachineInit
 AddLink ==   \* ActionLink.__init__:191-198
   /\ pc = "add" /\ ki <= Len(shape.links)
   /\ LET o == InstantiationOrder(shape, SubLinks(shape.links, ki)) IN
@@ -235,7 +270,7 @@ RestStep ==  \* _core.py:1250
   /\ mach' = ApplyRest(shape, mach, order)
   /\ pc' = (IF mach'.failed THEN "failed" ELSE "done")
   /\ UNCHANGED <<phase, tpl, shape, ki, results, order, comps>>
-NextMachine == AddLink \/ MakePlan \/ ApplyStep \/ BuildStep \/ RestStep
+NextMachine == (AddLink \/ MakePlan \/ ApplyStep \/ BuildStep \/ RestStep) /\ UNCHANGED hist
 
 \* invariants of the machine
 MTypeOK == /\ pc \in {"add", "apply", "build", "done", "rejected", "failed"}
